@@ -700,3 +700,39 @@ func (p *Prog) addrTakenFn(fn *ssa.Function) bool {
 	}
 	return taken
 }
+
+
+// DerivesAnyIP is DerivesAny that follows a parameter to the arguments of all static call sites of its function
+// (some root at some site satisfies pred; three levels) - a value keeps its meaning when the code using it moves into a helper.
+func (p *Prog) DerivesAnyIP(v ssa.Value, pred ValPred) bool {
+	seen := map[ssa.Value]bool{}
+	var walk func(v ssa.Value, d int) bool
+	walk = func(v ssa.Value, d int) bool {
+		if v == nil || seen[v] || d > 3 {
+			return false
+		}
+		seen[v] = true
+		for _, r := range Roots(v, false) {
+			if pred(r) {
+				return true
+			}
+			pr, ok := r.(*ssa.Parameter)
+			if !ok {
+				continue
+			}
+			idx := -1
+			for i, q := range pr.Parent().Params {
+				if q == pr {
+					idx = i
+				}
+			}
+			for _, s := range p.StaticCallSites(pr.Parent()) {
+				if cc := CC(s); cc != nil && idx >= 0 && idx < len(cc.Args) && walk(cc.Args[idx], d+1) {
+					return true
+				}
+			}
+		}
+		return false
+	}
+	return walk(v, 0)
+}
